@@ -81,6 +81,10 @@ SENSITIVITY = {
     "r12b": ("seeded/r12b/patch.diff", "C17", ["result-mismatch", "entry-point-mismatch"], "A: element-operation panic while the Linear cursor's slope row is refilled; Drop guard parks it with the old label"),
     "r12c": ("seeded/r12c/patch.diff", "C18", ["build-invariant", "build-invoked-on-invalid-input"], "A: builder decision table on long axes (block seams at 64/65, 129/130 ...)"),
     "r12d": ("seeded/r12d/patch.diff", "C18", ["callback-invariant", "concurrent-operation-affected", "wrong-target"], "C / B: per-axis one-entry memo filled in a second critical section without re-checking the key"),
+    "r13a": ("seeded/r13a/patch.diff", "C17", ["result-mismatch", "entry-point-mismatch"], "A: lazily made 'row-major copy' of contiguous non-standard-order data, created by the first bulk query"),
+    "r13b": ("seeded/r13b/patch.diff", "C17", ["result-mismatch", "entry-point-mismatch"], "A: Linear remembers 'layouts agree' in an AtomicBool; later interp_into with a contiguous, differently ordered target"),
+    "r13c": ("seeded/r13c/patch.diff", "C18", ["wrong-target", "callback-invariant"], "A: 2-D general path walks xs/ys with Zip (column-major when both are F-ordered) against row-major targets"),
+    "r13d": ("seeded/r13d/patch.diff", "C18", ["panic-invented", "concurrent-operation-affected", "error-changed"], "A: per-thread nesting counter leaks one level per strategy panic; after 64 every query on the thread panics"),
     "M16": ("mutants/M16.diff", "C17", ["answers-differ-between-processes", "process-history-dependence"], "A: evaluation order picked once per process from the hasher's random seed"),
 }
 # seeded/r7d is kept but not listed: its author reads C18 as forbidding one-point axes for strategies
